@@ -16,7 +16,7 @@ const maxInlineDepth = 10
 
 func isSpecHelper(f *types.Func) bool {
 	switch f.Name() {
-	case "old", "forallInt", "existsInt", "forallReal", "existsReal", "implies", "assert", "assume", "iff", "fresh", "memEq", "lemmaUse", "wfd", "bnd", "sameSlice":
+	case "old", "forallInt", "existsInt", "forallReal", "existsReal", "implies", "assert", "assume", "iff", "fresh", "memEq", "lemmaUse", "wfd", "bnd", "sameSlice", "iterStart":
 		return f.Pkg() != nil && strings.Contains(f.Pkg().Path(), "tdewolff/canvas")
 	}
 	return false
@@ -1173,6 +1173,28 @@ func (x *Exec) callSpecHelper(s *State, fn *types.Func, call *ast.CallExpr) []*T
 			return []*Term{Forall([]*Term{bv}, Implies(side, b))}
 		}
 		return []*Term{Exists([]*Term{bv}, And(side, b))}
+	case "iterStart":
+		// value of an expression at the start of the current iteration of loop <ord> (after the guard)
+		ordT := x.eval(s, call.Args[0])
+		ord := 0
+		if ordT.rat != nil {
+			ord = int(ordT.rat.Num().Int64())
+		}
+		var snap *State
+		for i := len(x.frames) - 1; i >= 0; i-- {
+			if st, ok := x.frames[i].iterStarts[ord]; ok {
+				snap = st
+				break
+			}
+		}
+		if snap == nil {
+			return []*Term{x.eval(s, call.Args[1])}
+		}
+		tmp := &State{env: snap.env, heap: snap.heap, assumes: s.assumes}
+		x.dry++
+		v := x.eval(tmp, call.Args[1])
+		x.dry--
+		return []*Term{v}
 	case "sameSlice":
 		return []*Term{Eq(x.eval(s, call.Args[0]), x.eval(s, call.Args[1]))}
 	case "wfd":
